@@ -496,3 +496,29 @@ def _burst_cancel():
     return st
 EXTRA["churn_pool_c"] = dict(cfg=dict(K=64, cancelable=True, churn=True), repeat=1,
                              behaviours=[dict(steps=_small_c(0), prefix=True)] * 26 + [dict(steps=_burst_cancel(), prefix=True)] + [dict(steps=_small_c(0), prefix=True)] * 8)
+# a long-lived trace of one thread next to many short traces of another (wave 10: collect ids handed out in per-thread
+# blocks of 64 with an off-by-one at the block boundary - the 65th trace of a thread shares its collect id with the first
+# trace of the thread that reserved the next block).  Internal block / batch sizes need runs that are long in one dimension.
+def _manyroots(n):
+    st = [dict(ev="spawn", t=1), dict(ev="spawn", t=2),
+          dict(_c("root", h=101, tr=1, smp=True), t=1), dict(_c("drop", h=101), t=1), dict(ev="push", t=1),
+          dict(_c("root", h=201, tr=2, smp=True), t=2), dict(_c("child", h=202, ps=[201], multi=False), t=2), dict(_c("drop", h=202), t=2), dict(ev="cycle")]
+    for k in range(2, n + 1):
+        st += [dict(_c("root", h=100 + k, tr=2 + k, smp=True), t=1), dict(_c("drop", h=100 + k), t=1), dict(ev="push", t=1)]
+        if k % 4 == 0:
+            st.append(dict(ev="cycle"))
+    st += [dict(_c("child", h=203, ps=[201], multi=False), t=2), dict(_c("drop", h=203), t=2), dict(_c("drop", h=201), t=2), dict(ev="push", t=2),
+           dict(_c("exit"), t=1), dict(_c("exit"), t=2), dict(ev="cycle"), dict(ev="cycle")]
+    return st
+EXTRA["manyroots_c"] = dict(cfg=dict(K=16, cancelable=True), behaviours=[dict(steps=_manyroots(70), prefix=True)])
+EXTRA["manyroots"] = dict(cfg=dict(K=16), behaviours=[dict(steps=_manyroots(70), prefix=True)])
+
+# a captured set with attachments at its top level pushed by one thread to a span that another thread finishes: the
+# parent's record can come BEFORE the set in the batch (the finishing thread's queue is swept first) - wave 10: attachments
+# mounted collection by collection lose them then.  Single-threaded, the push always precedes the parent's record.
+INSTANCES.update({
+    "lc_cross_p": (dict(threads=[1, 2], born=[1, 2], K=8, menu=["pushc", "drop", "exit"], MaxOps=3, MaxSpans=3, MaxRoots=1, MaxTraces=1, MaxLocal=2, MaxAtt=2, MaxLs=1,
+                        MaxScopes=1, MaxCycles=2, cross=True, prefix=True,
+                        prog={1: [S("root", tr=1, smp=True), S("child", ps=[101])],
+                              2: [S("lcstart"), S("levent"), S("lenter"), S("lexit"), S("lprops"), S("lccollect")]}), "edge", {}),
+})
